@@ -44,6 +44,7 @@ impl Problem {
         match self.kind.as_str() {
             "sho" | "vdp" | "lin2" => 2,
             "robertson" | "lin3" => 3,
+            "chain4" => 4,
             _ => 1,
         }
     }
@@ -64,6 +65,7 @@ impl Problem {
             "vdp" => vec![2.0, 0.0],
             "lin2" => vec![1.0, 0.5],
             "lin3" => vec![1.0, -0.5, 0.25],
+            "chain4" => vec![1.0, 0.0, 0.0, 0.0],
             _ => vec![1.0],
         }
     }
@@ -98,6 +100,13 @@ impl Problem {
             "lin2" => {
                 d[0] = -0.5 * y[0] + 2.0 * y[1];
                 d[1] = -2.0 * y[0] - 0.25 * y[1];
+            }
+            // lower-bidiagonal chain with strong sub-diagonal coupling p (forces row interchanges in the LU)
+            "chain4" => {
+                d[0] = -y[0];
+                d[1] = p * y[0] - y[1];
+                d[2] = p * y[1] - y[2];
+                d[3] = p * y[2] - y[3];
             }
             "lin3" => {
                 d[0] = -y[0] + 0.5 * y[1];
@@ -146,6 +155,11 @@ impl Problem {
                 j[1] = 2.0;
                 j[2] = -2.0;
                 j[3] = -0.25;
+            }
+            "chain4" => {
+                for v in j.iter_mut() { *v = 0.0; }
+                for r in 0..4 { j[r * 4 + r] = -1.0; }
+                for r in 1..4 { j[r * 4 + r - 1] = p; }
             }
             "lin3" => {
                 j[0] = -1.0;
@@ -206,10 +220,15 @@ impl Problem {
 
     /// half bandwidth of the Jacobian of the composed problem
     pub fn bandwidth(&self) -> usize {
-        self.base_dim() - 1
+        match self.kind.as_str() {
+            "lin3" | "chain4" => 1,
+            _ => self.base_dim() - 1,
+        }
     }
 
     pub fn event(&self, e: &EventSpec, t: f64, y: &[f64]) -> f64 {
+        // the time-reflected problem sees the same event surfaces in original time
+        let t = if self.reflect { -t } else { t };
         match e.kind.as_str() {
             "y0-a" => y[0] - e.a,
             "t-c" => t - e.a,
